@@ -4,6 +4,7 @@ import Drv.Fmt
 import Drv.C14
 import Drv.C12
 import Drv.C18
+import Drv.C20
 /-! `drv <model>`: executable models behind a one-line-in, one-line-out protocol. -/
 def main (args : List String) : IO UInt32 := do
   match args with
@@ -13,4 +14,5 @@ def main (args : List String) : IO UInt32 := do
   | ["c14"] => Drv.loop Drv.C14.step Drv.C14.Form.none; return 0
   | ["c12"] => Drv.loop Drv.C12.step Drv.C12.init; return 0
   | ["c18"] => Drv.loop Drv.C18.step {}; return 0
+  | ["c20"] => Drv.loop Drv.C20.step Drv.C20.St.none; return 0
   | _ => IO.eprintln "usage: drv <model>"; return 2
